@@ -484,6 +484,30 @@ theorem honest_pair_carries_datagram_lists (aControlling : Bool) (component addr
   exact ⟨(application_datagrams_carried _ _ addrA addrB hA hcB ps).1,
          (application_datagrams_carried _ _ addrB addrA hB hcA qs).1⟩
 
+/-- **Today's code violates the liveness half for role conflicts (glare).**  Full statement negated: "for EVERY role assignment of two
+honest agents with exchanged credentials and candidates, the lossless schedule ends with both connected".  Witness: both agents
+controlling (and likewise both controlled).  Every check is dropped by the receiver as a role conflict (`role_conflict_request_dropped`:
+no 487 answer, no tie-breaker comparison, no role switch — RFC 5245 7.1.2.2 / 7.2.1.1 are not implemented), nobody ever answers, and
+after the seven transmissions of each check both pairs are `failed` and nothing is in flight: no later event can connect them.
+The liveness theorems above therefore carry the hypothesis "the roles differ" (`honestNet` / `lossyStart` give B the negation of A's
+role). -/
+theorem C15_defect_role_conflict_never_connects :
+    ¬ (∀ aControlling bControlling : Bool,
+        bothConnected (Net.periods 3 (rolesNet aControlling bControlling 1, ⟨false, false, false, false⟩)).1 = true) ∧
+    (∀ sameRole : Bool,
+      let n := (Net.periods 9 (rolesNet sameRole sameRole 1, ⟨false, false, false, false⟩)).1
+      n.a.connected = false ∧ n.b.connected = false ∧
+      n.a.pairs.map (·.state) = [.failed] ∧ n.b.pairs.map (·.state) = [.failed] ∧ n.toA = [] ∧ n.toB = [] ∧
+      Out.roleConflict ∈ n.evA ∧ Out.roleConflict ∈ n.evB ∧
+      n.evA.all (fun o => !isBindingResponse o) = true ∧ n.evB.all (fun o => !isBindingResponse o) = true) := by
+  refine ⟨fun h => absurd (h true true) (by decide +kernel), ?_⟩
+  decide +kernel
+
+/-- the same schedule does connect the agents whenever the roles differ (so the witness above is about the roles, not the schedule) -/
+theorem differing_roles_connect (aControlling : Bool) :
+    bothConnected (Net.periods 3 (rolesNet aControlling (!aControlling) 1, ⟨false, false, false, false⟩)).1 = true := by
+  cases aControlling <;> decide +kernel
+
 /-! ## STUN / application demultiplexing -/
 
 /-- **Demultiplexing rule, spelled out:** a datagram is handed to STUN processing only if it has ≥ 20 bytes, carries the magic
